@@ -26,7 +26,7 @@ MANIFEST = {
             "writers arbitrarily late and in any order — once nothing is pending the history of an invocation sorted by the time of "
             "the change equals its change log: a documented path from REGISTERED to the current status, strictly ordered (no "
             "duplicate), only its own entries; a split transition is refuted (duplicated claim). Tie: AST facts + scenarios "
-            "(claim/run/retry/concurrency reroute/kill/recovery) on mem and SQLite with pynenc's history threads scheduled last, "
+            "(claim/run/batch submission/retry/concurrency reroute/kill/recovery) on mem and SQLite with pynenc's history threads scheduled last, "
             "in reverse and randomly; after wait_for_all_async_operations the real get_history is compared with the transition "
             "log and the current status record.",
     "note": "Hypothesis made explicit: change timestamps of one invocation are pairwise distinct (real clock, microsecond resolution; ties "
@@ -85,6 +85,36 @@ def install_thread_shim():
         bsb.threading = _ThreadShim(bsb.threading)
 
 
+def yielding_history(sb) -> None:
+    """in-memory state backend: primitive dict operations on the history store become scheduling points (a get-or-create and a
+    list.append are single C-level calls and stay atomic; a read followed by a store is two operations)"""
+    import collections
+    import threading
+    tl = threading.local()
+
+    class YHist(collections.defaultdict):
+        def __getitem__(self, k):
+            s = S.Sched.current
+            if s is not None:
+                s.yield_point("hist-get")
+            tl.in_get = True
+            try:
+                return super().__getitem__(k)
+            finally:
+                tl.in_get = False
+
+        def __setitem__(self, k, v):
+            s = S.Sched.current
+            if s is not None and not getattr(tl, "in_get", False):
+                s.yield_point("hist-set")
+            super().__setitem__(k, v)
+    old = sb._history
+    if isinstance(old, collections.defaultdict) and not isinstance(old, YHist):
+        new = YHist(old.default_factory)
+        new.update(old)
+        sb._history = new
+
+
 def chooser(mode: str, rng):
     def is_hist(a):
         return a.name.startswith("hist-")
@@ -107,7 +137,7 @@ def chooser(mode: str, rng):
     return choose
 
 
-SCENARIOS = ["plain", "retry", "cc_reroute", "kill", "recover"]
+SCENARIOS = ["plain", "batch", "retry", "cc_reroute", "kill", "recover"]
 
 
 def run_scenario(kind, scratch, name, mode, seed):
@@ -116,6 +146,8 @@ def run_scenario(kind, scratch, name, mode, seed):
     install_thread_shim()
     w = D.World(kind, scratch, history="async", max_pending_seconds=0.0)
     app = w.app
+    if kind == "mem" and hasattr(app.state_backend, "_history"):
+        yielding_history(app.state_backend)
     s = S.Sched()
     outs = {0: [], 1: []}
     ids = []
@@ -126,6 +158,10 @@ def run_scenario(kind, scratch, name, mode, seed):
             t = w.task(tasks_conc.work)
             ids.extend(t(i).invocation_id for i in range(2))
             app.broker.route_invocation(ids[0])
+        elif name == "batch":
+            # the batch path (parallelize -> route_calls -> add_histories): one REGISTERED entry per member, each its own
+            t = w.task(tasks_conc.work)
+            ids.extend(inv.invocation_id for inv in t.parallelize([(i,) for i in range(3)]).invocations)
         elif name == "retry":
             t = w.task(tasks_conc.flaky, max_retries=2, retry_for=(tasks_conc.Boom,))
             ids.append(t(1, 1).invocation_id)
@@ -137,7 +173,7 @@ def run_scenario(kind, scratch, name, mode, seed):
         else:
             t = w.task(tasks_conc.work)
             ids.extend(t(i).invocation_id for i in range(2))
-        rounds = 3 if name in ("retry", "cc_reroute") else 2
+        rounds = 3 if name in ("retry", "cc_reroute", "batch") else 2
         s.spawn("r0", w.polling_runner("r0", 1, outs[0], rounds=rounds))
         if name == "kill":
             def killer():
@@ -221,7 +257,7 @@ def main(ctx: Ctx) -> int:
     ctx.prove("Props/C10.v")
     scratch = world.scratch_dir()
     n, ties, per = 0, 0, {}
-    reps = 40 if ctx.thorough else 9
+    reps = 40 if ctx.thorough else 15
     try:
         for kind in ("mem", "sqlite"):
             for name in SCENARIOS:
@@ -244,7 +280,7 @@ def main(ctx: Ctx) -> int:
     ctx.count(n, n)
     ctx.notes["scenarios"] = {"runs": n, "per": per, "timestamp_ties_skipped_for_order": ties}
     ctx.assumptions += ["change timestamps of one invocation pairwise distinct (ties counted in the evidence, order not judged for them)"]
-    return ctx.finish(rule="each evaluation = one scheduled run of a lifecycle scenario (plain/retry/concurrency reroute/kill/recovery) on one "
+    return ctx.finish(rule="each evaluation = one scheduled run of a lifecycle scenario (plain/batch submission/retry/concurrency reroute/kill/recovery) on one "
                            "backend with history writers last / reverse / random; all runs are non-trivial (>= 2 invocations with >= 3 changes)")
 
 
